@@ -256,3 +256,101 @@ def mon_c20(case):
             return step, f"used = {cur[1]} but the recorded costs sum to {sum(cur[3].values())}"
         prev = cur
     return None
+
+
+# ---------------------------------------------------------------------------------------------
+MUT_ITER_KINDS = {2, 3, 8, 9, 11}
+
+
+def iter_script_writes(args):
+    """args = [kind npre na nb triples...]: True when a request of pre/pa stores through a &mut"""
+    if len(args) < 4:
+        return False
+    kind, npre, na = args[0], args[1], args[2]
+    if kind not in MUT_ITER_KINDS:
+        return False
+    tr = args[4:]
+    for i in range(npre + na):
+        if 3 * i + 1 < len(tr) and tr[3 * i + 1] != 0:
+            return True
+    return False
+
+
+def is_read_only(kind, op):
+    """the property's list of read-only calls, per cache type, on the encoded operation"""
+    c = op[0]
+    if c in (3, 5, 8, 9, 10):
+        return True
+    if c == 4:
+        return op[2] == 0
+    if kind == 0:
+        if c in (13, 19, 21, 26):
+            return True
+        if c in (15, 20, 22):
+            return op[1] == 0
+        if c == 24:
+            return not iter_script_writes(op[1:])
+    if kind == 1:
+        if c in (31, 33, 35, 37, 41, 42, 43, 44):
+            return True
+        if c in (32, 34, 36, 38):
+            return op[1] == 0
+    if kind == 2:
+        if c in (50, 51, 52, 26):
+            return True
+        if c == 60:
+            return not iter_script_writes(op[2:])
+    if kind == 3:
+        if c in (70, 71, 72, 73, 74):
+            return True
+        if c == 60:
+            return not iter_script_writes(op[2:])
+    if kind == 4:
+        if c in (100, 101, 102, 103):
+            return True
+    return False
+
+
+def mon_c13(case):
+    """a read-only call leaves the whole observable state (all lists in order, values, p, estimator) unchanged"""
+    kind = case["kind"]
+    if kind not in LAYOUT:
+        return None
+    prev = None
+    for step, (op, out, cb, acct, snap) in enumerate(case["lines"], 1):
+        if not op or op[0] in (98, 99) or out == [-1000]:
+            prev = None if out == [-1000] else prev
+            continue
+        if prev is not None and is_read_only(kind, op):
+            if snap != prev:
+                diff = next((i for i, (a, b) in enumerate(zip(prev, snap)) if a != b), min(len(prev), len(snap)))
+                return step, f"read-only call {op[:6]} changed the state (snapshot field {diff}: {prev[diff:diff+6]} -> {snap[diff:diff+6]})"
+            if cb and cb != [0]:
+                return step, f"read-only call {op[:6]} invoked the eviction callback"
+        prev = snap
+    return None
+
+
+def mon_c15(case):
+    """RawLRU with a callback: the callback log of each call = the entries that departed, LRU first,
+    with the value they had before the call; without callback: nothing"""
+    if case["kind"] != 0:
+        return None
+    hascb = case["cfg"][1] != 0
+    prev = []
+    for step, (op, out, cb, acct, snap) in enumerate(case["lines"], 1):
+        if not op or op[0] in (98, 99) or out == [-1000]:
+            continue
+        s = lru_snap(snap)
+        if s is None:
+            return step, "unreadable snapshot"
+        _, ents, _ = s
+        now = {k for k, _ in ents}
+        departed = [e for e in reversed(prev) if e[0] not in now]
+        n = cb[0] if cb else 0
+        got = [(cb[1 + 2 * i], cb[2 + 2 * i]) for i in range(n)]
+        want = departed if hascb else []
+        if got != want:
+            return step, f"callback invoked for {got} but the entries that left the cache are {want} (op {op[:4]})"
+        prev = ents
+    return None
